@@ -15,13 +15,16 @@ Models == {"ok_lp", "ok_logic", "infeas", "unsupported", "needbounds",
 Opts == {"none", "valid", "unknown", "illtyped", "objno_range",
          "solcount",           \* valid: sol:count=1 (multiple-solution suffixes)
          "optfile_self",       \* tech:optionfile naming a file that includes itself
-         "optfile_missing"}    \* tech:optionfile naming a file that does not exist
+         "optfile_missing",    \* tech:optionfile naming a file that does not exist
+         "solstub"}            \* valid: sol:stub=alt sol:count=1, the solver reports NAlt further solutions
 Modes == {"ampl", "wantsol", "plain"}
 Names == {"absent", "present", "short", "crlf",
           "emptyfirst"}        \* malformed: the names files start with an empty line
 Outs == {"ok", "blocked",
          "full"}               \* the result path accepts open() but fails on write/close (device full)
-NewValues == {"infeas_nested", "ok_noobj", "solcount", "optfile_self", "optfile_missing", "emptyfirst", "full"}
+NewValues == {"infeas_nested", "ok_noobj", "solcount", "optfile_self", "optfile_missing", "emptyfirst", "full", "solstub"}
+Scripted == 0                  \* the result code the scripted solver reports
+NAlt == 3                      \* further solutions the scripted solver reports in a "solstub" scenario
 \* the scenario space: the complete product of the round-1 values, plus every scenario that uses
 \* exactly one of the values added later (keeps the run count linear in the additions)
 NewCount(s) == Cardinality({f \in {"model", "opt", "names", "out"} : s[f] \in NewValues})
@@ -38,14 +41,23 @@ CanWriteSol(s) == WantsSol(s) /\ s.out = "ok" /\ HeaderReadable(s)
 NamesBad(s) == s.names = "emptyfirst"
 
 \* observed outcome o: [hang, crash, exit, sol ("absent" | "ok" | "malformed"), code, dimsOK,
-\*                      msgNonEmpty, stderrNonEmpty, stdoutNonEmpty]
-Scripted == 0
+\*                      msgNonEmpty, stderrNonEmpty, stdoutNonEmpty,
+\*                      altN (further .sol files found), altBad (of them: unparsable or wrong dimensions),
+\*                      nsol (value of the problem suffix nsol in the main file, -1 = absent), altSeq]
+\* further solution files: every one that exists is complete and has the header's dimensions; a run
+\* that is asked for them and ends with the solver's own code wrote all of them and says how many
+AltOK(s, o) ==
+  /\ o.altBad = 0
+  /\ s.opt # "solstub" => o.altN = 0
+  /\ (s.opt = "solstub" /\ o.sol = "ok" /\ o.code = Scripted /\ s.model \in {"ok_lp", "ok_logic", "ok_noobj"})
+        => (o.altN = NAlt /\ o.nsol = NAlt /\ o.altSeq)      \* altSeq: the files are <stub>1.sol .. <stub>N.sol
 WellFormed(s, o) ==
   /\ ~o.hang /\ ~o.crash
   /\ o.sol # "malformed"
   /\ o.sol = "ok" => o.dimsOK
 Accept(s, o) ==
   /\ WellFormed(s, o)
+  /\ AltOK(s, o)
   /\ IF CanWriteSol(s)
        THEN /\ o.sol = "ok"
             /\ IF Failing(s) \/ (NamesBad(s) /\ o.code >= 500) THEN o.code >= 500 /\ o.code <= 999 /\ o.msgNonEmpty
